@@ -368,13 +368,19 @@ func jarExtraSemantics(env *Env, v Variant, a *Artifact, j *jarInfo, sib []byte,
 }
 
 // threeJar: a small handmade input with three payload members (stored and
-// deflated) so that digest swaps and multi-member sites exist.
+// deflated) so that digest swaps and multi-member sites exist, and a second
+// copy of two of them under other names (identical bytes, identical manifest
+// digest, their own place in the archive) so that every byte of a LATER copy
+// of already-seen content is flipped too: a verifier that remembers digests it
+// has checked by value instead of by member is wrong only there.
 func threeJar() []byte {
 	ms := []zMember{
 		{Name: "META-INF/MANIFEST.MF", Content: []byte("Manifest-Version: 1.0\r\nCreated-By: verif C02\r\n\r\n")},
 		{Name: "a.txt", Content: []byte("alpha alpha alpha alpha\n")},
 		{Name: "pkg/B.class", Content: bytes.Repeat([]byte("\xca\xfe\xba\xbe bravo "), 12), Deflate: true},
 		{Name: "c.bin", Content: []byte{0, 1, 2, 3, 4, 5, 6, 7, 8, 9}},
+		{Name: "copy/a.txt", Content: []byte("alpha alpha alpha alpha\n")},
+		{Name: "copy/B.class", Content: bytes.Repeat([]byte("\xca\xfe\xba\xbe bravo "), 12), Deflate: true},
 	}
 	return zipBuild(nil, ms, zBuildOpts{})
 }
